@@ -55,6 +55,19 @@ the opening tag is `<a` + `attrHtml fmt "href" url` + (`attrHtml fmt "title" tit
 equals its name is written as the bare name, otherwise ` name="value"` in both formats: `C15_aOpenF_plain`).
 `C15_specUsesF_xhtml`: for xhtml this is the output of part 2.
 
+Part 5 (`Lemmas/RefTextItems.lean`, `Lemmas/RefTextElem.lean`, `Lemmas/RefTextDocs.lean`): **definitions anywhere among
+the blocks of a document** — "wherever at top level the definition appears (before or after the use, alone or next to
+other definitions)", "definitions themselves produce no output".  `C15_document`: the document is ANY sequence of
+items separated by blank lines, each a reference definition, a paragraph with reference-style uses (part 2), or a block
+of the `MixDoc` kind of C01b (rule, indented code block, paragraph / ATX heading / Setext heading with words, escapes,
+code spans, emphasis); every use may refer to a definition anywhere in the document — before it, after it, blocks
+away; the output is the outputs of the items that are not definitions, one per line, every link carrying the
+destination and title its label resolves to among ALL the definitions of the document (`sDefs`: last definition of a
+key wins, loose matching).  One condition on the order, found by testing and needed: no indented code block directly
+after an indented code block *even when only definitions stand between them* (`noCodeCode`: the definitions leave no
+element, so the second code block is appended to the first).  `C15_document_pieces`: the same for any pieces of
+`Lemmas/DocParse2.lean` (`Piece2At`), any escapable set, any tab length.  Default configuration (`{}`), xhtml.
+
 Restrictions of part 2, found by testing or inherited: full form `[text][label]` / `[text] [label]` with a non-empty
 label (the collapsed and shortcut forms look up the link TEXT, which by then holds placeholders for code spans and
 escapes: `Props/C15Forms.lean` has them for plain text); the line starts with a character that starts no block
@@ -67,6 +80,7 @@ import MdVerif.Lemmas.RefTextDoc
 import MdVerif.Lemmas.RefTextSpec
 import MdVerif.Lemmas.RefTextLines
 import MdVerif.Lemmas.RefTextFmtSpec
+import MdVerif.Lemmas.RefTextDocs
 
 namespace MdVerif.RefText
 open Py Inline RefDef InlineRef
@@ -495,6 +509,75 @@ theorem C15_mix_line_fmt (cfg : Pipeline.Cfg)
       .ok ("<p>".toList ++ (C0.out ++ usOutF cfg.fmt us) ++ "</p>".toList) :=
   convert_line_fmt cfg hbl htab hE hrb before after hb ha C0 us hne h0 hus hstart hchars hnoref
 
+/-! ## Part 5: definitions anywhere among the blocks of a document -/
+
+open DocSpec DocParse DocParse2 in
+/-- **Reference definitions work from anywhere in a document.**  `ss` is any sequence of items (`SItem`) separated by
+    blank lines: `.defn d` a reference definition, `.links c₀ us st` a paragraph `c₀ [t₁][l₁] c₁ … [tₘ][lₘ] cₘ` with
+    uses (as in `C15_text_markup`), `.block b st` a block of the `MixDoc` kind printed under the spelling state `st`.
+    `SItem.ok (sDefs ss)`: the definitions satisfy `DefSpec.ok`; the paragraphs with uses satisfy the hypotheses of
+    `C15_text_markup`, every label resolving among ALL the definitions of the document `sDefs ss` — wherever they
+    stand; the blocks are well-formed `MixDoc` blocks.  At least one item is not a definition; no code block directly
+    follows a code block, definitions between them not counting (`noCodeCode`).  Then `convert` returns the expected
+    outputs of the items that are not definitions, one per line (`sOuts`, `joinOutS`); the definitions print
+    nothing. -/
+theorem C15_document (ss : List SItem) (hne : sOuts ss ≠ []) (hok : ∀ s ∈ ss, s.ok (sDefs ss))
+    (hadj : noCodeCode (sCodes ss)) :
+    Pipeline.convert {} (joinLines (flatLines (ss.map SItem.lines))) = .ok (joinOutS (sOuts ss)) :=
+  convert_sitems ss hne hok hadj
+
+/-- the vocabulary of `C15_document`, spelled out: source lines, definitions, expected outputs, code flags -/
+theorem C15_document_spec (d : DefSpec) (c0 : List DocSpec.Inline) (us : List MUse) (b : DocSpec.Block)
+    (st : DocSpec.PSt) (r : List SItem) :
+    (SItem.defn d).lines = RefDef.defLines d.indent d.label d.url false d.title d.titleOnNextLine ∧
+    d.src = joinLines (SItem.defn d).lines ∧
+    (SItem.links c0 us st).lines = [printLine c0 us st] ∧
+    (SItem.block b st).lines = (DocSpec.printBlock true b st).1 ∧
+    sDefs (.defn d :: r) = d :: sDefs r ∧ sDefs (.links c0 us st :: r) = sDefs r ∧ sDefs (.block b st :: r) = sDefs r ∧
+    sOuts (.defn d :: r) = sOuts r ∧
+    sOuts (.links c0 us st :: r) =
+      ("<p>".toList ++ (DocSpec.specInlines c0 ++ specUses us) ++ "</p>".toList) :: sOuts r ∧
+    sOuts (.block b st :: r) = DocSpec.specBlock b :: sOuts r ∧
+    sCodes (.defn d :: r) = sCodes r ∧ sCodes (.links c0 us st :: r) = false :: sCodes r ∧
+    sCodes (.block b st :: r) = DocSpec.isCode b :: sCodes r :=
+  ⟨rfl, src_eq_joinLines d, rfl, rfl, rfl, rfl, rfl, rfl, rfl, rfl, rfl, rfl, rfl⟩
+
+/-- the conditions of `C15_document` on each kind of item, spelled out -/
+theorem C15_document_ok (defs : List DefSpec) (d : DefSpec) (c0 : List DocSpec.Inline) (us : List MUse)
+    (b : DocSpec.Block) (st : DocSpec.PSt) :
+    ((SItem.defn d).ok defs ↔ d.ok 4 = true) ∧
+    ((SItem.links c0 us st).ok defs ↔ (us ≠ [] ∧ mixOK c0 = true ∧ (∀ u ∈ us, u.ok = true) ∧
+      (∀ u ∈ us, Block.lookupRef (defs.map DefSpec.entry) (normUse u.label) = some (u.url, u.title)) ∧
+      startPlain (printLine c0 us st) = true ∧ (printLine c0 us st).all lineCh = true ∧
+      Block.refMatchAt (printLine c0 us st) 0 = none)) ∧
+    ((SItem.block b st).ok defs ↔ (DocSpec.isMixBlock b = true ∧ DocSpec.wfBlock none b = true)) :=
+  ⟨Iff.rfl, Iff.rfl, Iff.rfl⟩
+
+open DocParse DocParse2 in
+/-- **The same for any pieces**: a document of pieces (`Piece2`: block-parser piece + element at every later stage,
+    `Lemmas/DocParse2.lean`) and definitions in any order.  Every piece is correct for the references of ALL the
+    definitions (`Piece2At`; the pieces of C01b are correct for any references: `Piece2OK.at`; a paragraph with uses
+    is one when its labels resolve among the definitions `defs` of the document: `C15_linePiece`). -/
+theorem C15_document_pieces (cfg : Pipeline.Cfg) (hbl : cfg.blockLevel = TreeProc.defaultBlockLevel)
+    (hfmt : cfg.fmt = .xhtml) (is : List DItem) (hne : blksOf is ≠ [])
+    (hD : ∀ d ∈ dfnsOf is, d.ok cfg.tab = true)
+    (hP : ∀ p ∈ blksOf is, Piece2At cfg (((dfnsOf is).map DefSpec.entry).reverse) p)
+    (hadj : noCodeAfterCode ((blksOf is).map (·.b))) :
+    Pipeline.convert cfg (joinLines (flatLines (is.map DItem.lines))) =
+      .ok (joinOutS ((blksOf is).map (·.elem.out))) :=
+  convert_items cfg hbl hfmt is hne hD hP hadj
+
+/-- a paragraph with uses (chunk level, any escapable set) is a piece of a document whose definitions are `defs` -/
+theorem C15_linePiece (cfg : Pipeline.Cfg) (htab : 0 < cfg.tab) (hE : DocParse.EscOK cfg.esc) (hrb : ']' ∈ cfg.esc)
+    (defs : List DefSpec) (hd : ∀ d ∈ defs, d.ok cfg.tab = true) (C0 : Chunk) (us : List RUse) (hne : us ≠ [])
+    (h0 : ChunkOK cfg.esc C0) (hus : ∀ u ∈ us, UseSpec cfg.esc defs u)
+    (hstart : startPlain (lineRaw cfg.esc C0 us) = true) (hchars : (lineRaw cfg.esc C0 us).all lineCh = true)
+    (hnoref : Block.refMatchAt (lineRaw cfg.esc C0 us) 0 = none) :
+    Piece2At cfg ((defs.map DefSpec.entry).reverse) (linePiece cfg.esc C0 us) ∧
+    (linePiece cfg.esc C0 us).b.g = [lineRaw cfg.esc C0 us] ∧
+    (linePiece cfg.esc C0 us).elem.out = "<p>".toList ++ (C0.out ++ usOut us) ++ "</p>".toList :=
+  ⟨linePiece_at cfg htab hE hrb defs hd C0 us hne h0 hus hstart hchars hnoref, rfl, rfl⟩
+
 /-! ### instances: the hypotheses are satisfiable; evaluated by the kernel on the model as well -/
 
 section examples
@@ -564,6 +647,55 @@ example : Pipeline.convert { fmt := .html }
       (printLine sampleC0 [sampleU1, sampleU3] sampleSt) []) =
     .ok ("<p>see <em>it</em> and <code>a[b]</code>! <a href=\"/u?a=b\" title=\"T\"><strong>the docs</strong> of " ++
      "<code>x*y</code>_</a> then *<a href title><em>go</em></a></p>").toList := by decide +kernel
+
+/-- a document: heading, definition, code block (whose first line looks like a definition), paragraph with two uses
+    (one of the definition before it, one of the definition after the rule), rule, definition, paragraph -/
+def sampleDoc : List SItem :=
+  [ .block (.atx 2 [.text (S "Title "), .em [.text (S "one")]]) ⟨[0, 3], 1, []⟩,
+    .defn ⟨0, S "Foo Bar", S "/u?a=b", some (.dq, S "T"), false⟩,
+    .block (.code [S "[x]: /not-a-definition", S "", S "code *here*"]) ⟨[], 1, []⟩,
+    .links sampleC0 [sampleU1, sampleU2] sampleSt,
+    .block .rule ⟨[2], 1, []⟩,
+    .defn ⟨1, S "X", S "/v", none, false⟩,
+    .block (.para [.text (S "the end"), .esc '!']) ⟨[1], 1, []⟩ ]
+
+example : joinLines (DocParse.flatLines (sampleDoc.map SItem.lines)) =
+    ("## Title _one_\n\n[Foo Bar]: /u?a=b \"T\"\n\n    [x]: /not-a-definition\n\n    code *here*\n\n" ++
+     "see _it_ and ``a[b]``\\! [**the docs** of ``x*y``\\_][Foo  BAR] then \\*[plain 2] [x]\\.``` ` ```\n\n" ++
+     "  ***\n\n [X]: /v\n\n the end\\!").toList := by decide +kernel
+
+example : DocParse2.joinOutS (sOuts sampleDoc) =
+    ("<h2>Title <em>one</em></h2>\n<pre><code>[x]: /not-a-definition\n\ncode *here*\n</code></pre>\n" ++
+     "<p>see <em>it</em> and <code>a[b]</code>! <a href=\"/u?a=b\" title=\"T\"><strong>the docs</strong> of " ++
+     "<code>x*y</code>_</a> then *<a href=\"/v\">plain 2</a>.<code>`</code></p>\n<hr />\n<p>the end!</p>").toList := by
+  decide +kernel
+
+/-- the theorem applied -/
+example : Pipeline.convert {} (joinLines (DocParse.flatLines (sampleDoc.map SItem.lines))) =
+    .ok (DocParse2.joinOutS (sOuts sampleDoc)) := by
+  refine C15_document sampleDoc (by simp [sampleDoc, sOuts]) ?_ (by simp [sampleDoc, sCodes, noCodeCode, DocSpec.isCode])
+  intro s hs
+  simp only [sampleDoc, List.mem_cons, List.not_mem_nil, or_false] at hs
+  rcases hs with rfl | rfl | rfl | rfl | rfl | rfl | rfl
+  · exact ⟨by decide, by decide⟩
+  · show DefSpec.ok 4 _ = true; decide
+  · exact ⟨by decide, by decide⟩
+  · exact ⟨by simp, by decide, by decide, by decide +kernel, by decide +kernel, by decide +kernel, by decide +kernel⟩
+  · exact ⟨by decide, by decide⟩
+  · show DefSpec.ok 4 _ = true; decide
+  · exact ⟨by decide, by decide⟩
+
+/-- the same document evaluated by the kernel on the model, independently of the theorem -/
+example : Pipeline.convert {} (joinLines (DocParse.flatLines (sampleDoc.map SItem.lines))) =
+    .ok ("<h2>Title <em>one</em></h2>\n<pre><code>[x]: /not-a-definition\n\ncode *here*\n</code></pre>\n" ++
+     "<p>see <em>it</em> and <code>a[b]</code>! <a href=\"/u?a=b\" title=\"T\"><strong>the docs</strong> of " ++
+     "<code>x*y</code>_</a> then *<a href=\"/v\">plain 2</a>.<code>`</code></p>\n<hr />\n<p>the end!</p>").toList := by
+  decide +kernel
+
+/-- why `noCodeCode`: with only a definition between two indented code blocks the second is appended to the first
+    (same on the implementation) -/
+example : Pipeline.convert {} "    a\n\n[l]: /u\n\n    b".toList = .ok "<pre><code>a\n\nb\n</code></pre>".toList := by
+  decide +kernel
 
 /-- outside the domain, recorded: the collapsed form looks up the link text as it is when pattern 2 runs — with a code
     span in it the key holds a placeholder and finds nothing; the text stays literal, its markup rendered
